@@ -1,4 +1,70 @@
-import LecModel
+/-
+  C06 — fragments_needed returns a usable, sufficient, in-range set or an error.
+
+  Reed–Solomon (`liberasurecode_rs_vand_min_fragments`, also used by the ISA-L adapters):
+  `rs_needed_ok`        whenever at most m distinct indexes are requested or excluded the query
+                        succeeds with exactly k indexes, strictly ascending (so distinct), below
+                        k+m, none of them requested or excluded;
+  `rs_needed_sufficient` any list it returns names k rows of the generator that form an invertible
+                        matrix (MDS), so every fragment can be rebuilt from those alone;
+  `rs_needed_error`     with more than m distinct indexes unavailable it returns an error.
+  Flat XOR (`xor_hd_fragments_needed`), every generated table:
+  `xor_needed_ok`       for all ascending disjoint lists R ≠ [] and X with |R|+|X| < hd the query
+                        succeeds; the answer is in range, duplicate-free, disjoint from R and X,
+                        and sufficient: the symbol of every r ∈ R lies in the GF(2) span of the
+                        symbols of the answer (kernel-decided per table on a verified span checker);
+  `xor_needed_bytes`    payload-level reading of sufficiency, every payload length and content.
+  List orders other than ascending, and "an error rather than a wrong list" beyond tolerance for
+  XOR, are covered by the relational correspondence: the real query runs on the whole finite
+  domain of (table, R, X) in random orders and every answer is judged by range / disjointness /
+  GF(2)-span tests on the real payloads, plus a real reconstruct from exactly the returned
+  fragments for Reed–Solomon.
+-/
+import LecProofs.RSBackend
+import LecProofs.XorNeededOK
 import LecGen
 namespace LecProps.C06
+open Lec
+
+theorem rs_needed_ok {k m : Nat} (hk : 1 ≤ k) (R X : List Nat) (hc : (R ++ X).toFinset.card ≤ m) :
+    ∃ N, rsNeeded k m R X = .ok N ∧ N.length = k ∧ N.Pairwise (· < ·) ∧
+      ∀ i ∈ N, i < k + m ∧ i ∉ R ∧ i ∉ X :=
+  rsNeeded_ok hk R X hc
+
+theorem rs_needed_sufficient {k m : Nat} (hkm : k + m ≤ 65536) {R X N : List Nat}
+    (h : rsNeeded k m R X = .ok N) :
+    N.length = k ∧ (genMatrix k (fun a => N.getD a 0)).det ≠ 0 :=
+  rsNeeded_invertible hkm h
+
+theorem rs_needed_error {k m : Nat} (R X : List Nat) (hR : ∀ i ∈ R, i < k + m) (hX : ∀ i ∈ X, i < k + m)
+    (hc : m < (R ++ X).toFinset.card) : rsNeeded k m R X = .error (.rc (-1)) :=
+  rsNeeded_error R X hR hX hc
+
+theorem rs_backend_uses_it (G : Nat → Nat → Nat) (k m : Nat) : (rsBackend G k m).needed = rsNeeded k m :=
+  rsBackend_needed G k m
+
+theorem xor_needed_ok (T : XorTable) (hT : T ∈ LecGen.xorTables) (R X : List Nat)
+    (hA : T.NeededArgs R X) :
+    ∃ N, T.fragmentsNeeded R X = some N ∧
+      (∀ f ∈ N, f < T.k + T.m) ∧ N.Nodup ∧ (∀ f ∈ N, f ∉ R ∧ f ∉ X) ∧
+      ∀ r ∈ R, Span (N.map T.symOf) (T.symOf r) :=
+  xorTables_needed T hT R X hA
+
+theorem xor_needed_bytes (T : XorTable) (hT : T ∈ LecGen.xorTables) (R X : List Nat)
+    (hA : T.NeededArgs R X) (bs : Nat) (d : List Bytes) (hd : ∀ x ∈ d, x.length = bs) :
+    ∃ N, T.fragmentsNeeded R X = some N ∧
+      ∀ r ∈ R, SpanG xorBytes (zeros bs) (N.map fun f => interp bs d (T.symOf f))
+        (interp bs d (T.symOf r)) :=
+  xorTables_needed_bytes T hT R X hA bs d hd
+
+/-- non-vacuity: (10,6,4), rebuild data 0 and 1 excluding 2 — the case that used to shift by a
+    negative amount is answered in range. -/
+example : ((LecGen.xorTableFor 4 6 10).bind fun T => T.fragmentsNeeded [0, 1, 2] []).map
+    (fun N => N.all (· < 16)) = some true := by decide +kernel
+
+#print axioms rs_needed_ok
+#print axioms rs_needed_sufficient
+#print axioms rs_needed_error
+#print axioms xor_needed_ok
+#print axioms xor_needed_bytes
 end LecProps.C06
